@@ -1,5 +1,204 @@
-"""C01 time clause: bounded search for exponentially ambiguous regex loops (filled in below)."""
+"""C01 time clause: bounded solver search for exponentially ambiguous loops in the live lexer regexes.
+
+For every unbounded repeat node of every regex the lexer can apply, a symbolic string w of length 1..p is matched against
+the loop BODY in all possible ways; if on some feasible path [0, |w|] splits into body matches in two different ways, the
+loop has two accepting decompositions of w (=> exponentially many of w^n => exponential backtracking once the overall
+match fails).  `unsat` for all loops = no exponentially ambiguous loop with a pump of <= p characters."""
+import re as _re
+import re._parser as _parser
+import re._constants as C
+import time
+
+from symx import core, values, driver, symre
+from symx.values import SymStr, sym_string
+from . import common
+
+PATTERNS = None
 
 
-def run(check, tier, cands):
-    return
+def live_patterns(L):
+    """(source, flags) of every regex the lexer applies, taken from the lexer's own pattern cache after the real lexer has
+    run over a corpus that reaches every matcher (so run-time formatted patterns and their flags are the real ones)"""
+    import re as real_re
+    import types
+    from .C12_corpus import CORPUS
+    from . import realops
+    # the instrumented lexer module compiles through SymRe; use a pristine copy of the module source for the census
+    mod = types.ModuleType("lexer_census")
+    src = open(L.__file__).read()
+    mod.__dict__["__name__"] = "mako.lexer_census"
+    exec(compile(src, L.__file__, "exec"), mod.__dict__)
+    corpus = list(CORPUS.values()) + [realops._C20_CORPUS, "<%text>x</%text>${a | h}\n%% x\n## c\n<%doc>d</%doc>\\\n</%a>", "<%a b='c'/>", "% if x:\n% endif\n"]
+    for t in corpus:
+        try:
+            mod.Lexer(t).parse()
+        except Exception:
+            pass
+    pats = [(k[0], int(k[1] or 0)) for k in mod._regexp_cache]
+    pats.append((mod.Lexer._coding_re.pattern, int(mod.Lexer._coding_re.flags & ~real_re.U)))
+    return sorted(set(pats))
+
+
+def loops_of(tree, path=()):
+    """(path, node) for every repeat node with an unbounded maximum"""
+    out = []
+    for i, (op, av) in enumerate(tree):
+        here = path + (i,)
+        if op in (C.MAX_REPEAT, C.MIN_REPEAT):
+            lo, hi, sub = av
+            if hi is C.MAXREPEAT:
+                out.append((here, (op, av)))
+            out.extend(loops_of(sub, here))
+        elif op is C.SUBPATTERN:
+            out.extend(loops_of(av[3], here))
+        elif op is C.BRANCH:
+            for k, alt in enumerate(av[1]):
+                out.extend(loops_of(alt, here + (k,)))
+        elif op in (C.ASSERT, C.ASSERT_NOT):
+            out.extend(loops_of(av[1], here))
+    return out
+
+
+def h_loop(src, flags, lp, n):
+    def h(p):
+        pat = symre.Pattern(src, flags)
+        node = lp
+        lo, hi, body = node[1]
+        body = list(body)
+        w = sym_string(n, "w")
+        done = lambda pos, g: iter([(pos, g)])
+        ends = {}
+        for j in range(n):
+            es = set()
+            for e, _g in symre.m_seq(body, 0, w, j, {}, pat, done):
+                if e > j:
+                    es.add(e)
+            ends[j] = es
+        ways = [0] * (n + 1)
+        ways[0] = 1
+        for i in range(1, n + 1):
+            ways[i] = sum(ways[j] for j in range(i) if i in ends[j])
+        return dict(w=w, ways=ways[n], src=src, flags=flags)
+    return h
+
+
+def on_loop(p, r, exc, acc):
+    if exc is not None:
+        if isinstance(exc, NotImplementedError):
+            acc.counts["regex feature not modelled: %s" % exc] += 1
+            return
+        acc.candidate(kind="ambiguity-harness-exception", input=None, detail="%s: %s" % (type(exc).__name__, str(exc)[:200]))
+        return
+    acc.tags["asserted"] += 1
+    acc.vcs += 1
+    if r["ways"] >= 2:
+        w = r["w"].concretize(p.witness())
+        acc.candidate(kind="exponentially-ambiguous-loop", input=dict(pattern=r["src"], flags=int(r["flags"]), pump=w), detail="%d decompositions of %r" % (r["ways"], w))
+
+
+def pump_time(src, flags, pump):
+    """try to make the REAL regex engine backtrack exponentially: prefix + pump*k + failing suffix"""
+    pat = _re.compile(src, flags)
+    lead = ""
+    try:
+        for op, av in _parser.parse(src, flags):
+            if op is C.LITERAL:
+                lead += chr(av)
+            else:
+                break
+    except Exception:
+        pass
+    best = None
+    for prefix in (lead + "a", lead, lead + "a ", ""):
+        for suffix in ("X", "\x00", "!", ""):
+            times = []
+            for k in (10, 12, 14, 16, 18):
+                s = prefix + pump * k + suffix
+                t = time.perf_counter()
+                pat.match(s)
+                times.append(time.perf_counter() - t)
+                if times[-1] > 2.0:
+                    break
+            ratios = [b / a for a, b in zip(times, times[1:]) if a > 2e-3]
+            if len(ratios) >= 2 and min(ratios[-2:]) > 2.5:
+                return dict(prefix=prefix, suffix=suffix, times=[round(x, 4) for x in times])
+            best = best or dict(prefix=prefix, suffix=suffix, times=[round(x, 5) for x in times])
+    return None
+
+
+def make_replay(c):
+    i = c["input"]
+    body = """
+import re, time
+from mako.lexer import Lexer
+from mako import exceptions
+CASE = __CASE__
+print("pattern:", CASE["pattern"][:120].replace("\\\\n", " "))
+print("pump:", repr(CASE["pump"]), "prefix:", repr(CASE.get("prefix")), "suffix:", repr(CASE.get("suffix")))
+if CASE.get("prefix") is None:
+    print("no exponential growth measured on the real engine"); print("HOLDS"); sys.exit(0)
+times = []
+for k in (10, 12, 14, 16, 18):
+    s = CASE["prefix"] + CASE["pump"] * k + CASE["suffix"]
+    t = time.perf_counter()
+    try: Lexer(s).parse()
+    except exceptions.MakoException: pass
+    times.append(time.perf_counter() - t)
+    if times[-1] > 5: break
+print("lexing times for pump counts 10,12,14,..:", [round(x, 4) for x in times])
+ratios = [b / a for a, b in zip(times, times[1:]) if a > 2e-3]
+bad = "lexing time grows exponentially with the input length" if len(ratios) >= 2 and min(ratios[-2:]) > 2.5 else None
+print("VIOLATED: " + bad if bad else "HOLDS")
+sys.exit(1 if bad else 0)
+""".replace("__CASE__", repr(i))
+    return (c["kind"], body, (i["pattern"], i.get("prefix"), i.get("suffix")))
+
+
+def classify(c):
+    i = c.get("input") or {}
+    if c["kind"] == "exponentially-ambiguous-loop" and "# opening tag" in i.get("pattern", ""):
+        return "C01-tag-attribute-exponential"
+    return None
+
+
+def run(check, tier, cands_out):
+    from . import C01
+    pats = live_patterns(C01.L)
+    P = {"quick": 3, "thorough": 5}[tier]
+    jobs = []
+    nloops = 0
+    for src, flags in pats:
+        try:
+            tree = _parser.parse(src, flags)
+        except Exception:
+            continue
+        for path_, node in loops_of(tree):
+            nloops += 1
+            for n in range(1, P + 1):
+                jobs.append(("C01-amb-%d-%d" % (nloops, n), h_loop(src, flags, node, n), on_loop, src, flags, n))
+    for j in jobs:
+        driver.register(j[0], j[1], j[2])
+    total = dict(paths=0, forks2=0, checks=0, solver_s=0.0, aborted=0, inconclusive=0, cpu_s=0.0, wall_s=0.0, exhausted=True)
+    acc_all = driver.Acc()
+    for name, _h, _o, src, flags, n in jobs:
+        st, acc = driver.explore(name, time_limit=600, workers=1 if n <= 3 else None)
+        for k in ("paths", "forks2", "checks", "solver_s", "aborted", "inconclusive", "cpu_s", "wall_s"):
+            total[k] += st[k]
+        total["exhausted"] = total["exhausted"] and st["exhausted"]
+        acc_all.merge(acc)
+        acc_all.candidates = acc_all.candidates
+    # one candidate per pattern is enough; try to realise it on the real engine
+    seen = set()
+    mine = []
+    for c in acc_all.candidates:
+        if c["kind"] != "exponentially-ambiguous-loop" or c["input"]["pattern"] in seen:
+            continue
+        seen.add(c["input"]["pattern"])
+        pt = pump_time(c["input"]["pattern"], c["input"]["flags"], c["input"]["pump"])
+        c["input"].update(pt or {"prefix": None, "suffix": None})
+        mine.append(c)
+    acc_all.candidates = []
+    acc_all.sample(dict(patterns=len(pats), unbounded_loops=nloops, pump_bound=P, ambiguous=[c["input"]["pattern"][:60] for c in mine]))
+    check.section("ambiguity search over %d unbounded loops of %d live lexer patterns, pump <= %d" % (nloops, len(pats), P), total, acc_all,
+                  dict(patterns=len(pats), loops=nloops, pump=P), tags_required=("asserted",))
+    check.confirm(mine, make_replay, classify, max_confirm=10)
